@@ -29,7 +29,8 @@ LEAN_MODULES = ['Proofs.C15']
 REQUIRED = ['C15.Inv_init', 'C15.Inv_step', 'C15.Inv_run', 'C15.metric_value', 'C15.metric_value_augmented',
             'C15.parse_print', 'C15.cmp_sem', 'C15.matching_is_conjunction', 'C15.subset_is_rank',
             'C15.pick_selects', 'C15.chain_maximal_runs', 'C15.cache_irrelevant', 'C15.sliceCache_eq_lookup',
-            'C15.container_vectors_are_index_map_vectors', 'C15.metric_is_cycle_statistic']
+            'C15.container_vectors_are_index_map_vectors', 'C15.metric_is_cycle_statistic',
+            'C15.container_cv_is_cycle_vector', 'C15.init_is_good_is_quality_flag']
 TRUSTED = ["Python's float(text) is an oracle: the harness sends float(cond[i:]) for every suffix of every condition, the model chooses the suffix",
            'pandas builds the table (DataFrame.from_dict / drop / reset_index): only row count, column names and cell values are compared',
            'the float constants 1.5*pi (trough threshold), 2*pi and 2*pi - phase_edge are computed by the harness with the documented expressions and handed to the model exactly',
